@@ -39,6 +39,9 @@ type Solver struct {
 	LastErr string
 	log     io.Writer // optional transcript
 	timeout int       // ms per check
+	pend    []string  // commands not yet written to the solver
+	marks   []int     // positions in pend of unflushed "(push)" commands
+	Elided  int
 }
 
 func NewSolver(kind SolverKind, timeoutMs int) (*Solver, error) {
@@ -71,6 +74,7 @@ func (s *Solver) Close() {
 	if s == nil || s.cmd == nil {
 		return
 	}
+	s.flushPending()
 	s.w.WriteString("(exit)\n")
 	s.w.Flush()
 	s.in.Close()
@@ -91,8 +95,32 @@ func (s *Solver) Send(x string) {
 	if s.dead {
 		return
 	}
-	s.w.WriteString(x)
-	s.w.WriteByte('\n')
+	// commands are queued until an answer is needed; a scope that is pushed and popped
+	// without any check in between never reaches the solver
+	switch x {
+	case "(push)":
+		s.marks = append(s.marks, len(s.pend))
+		s.pend = append(s.pend, x)
+	case "(pop)":
+		if n := len(s.marks); n > 0 {
+			s.Elided += len(s.pend) - s.marks[n-1]
+			s.pend = s.pend[:s.marks[n-1]]
+			s.marks = s.marks[:n-1]
+		} else {
+			s.pend = append(s.pend, x)
+		}
+	default:
+		s.pend = append(s.pend, x)
+	}
+}
+
+func (s *Solver) flushPending() {
+	for _, x := range s.pend {
+		s.w.WriteString(x)
+		s.w.WriteByte('\n')
+	}
+	s.pend = s.pend[:0]
+	s.marks = s.marks[:0]
 }
 
 // sync reads everything up to an echo marker, returning the lines.
@@ -101,6 +129,7 @@ func (s *Solver) readUntilMarker() []string {
 	if s.dead {
 		return []string{"(error \"solver was killed after a timeout\")"}
 	}
+	s.flushPending()
 	s.w.WriteString("(echo \"" + marker + "\")\n")
 	s.w.Flush()
 	timer := time.AfterFunc(time.Duration(s.timeout)*time.Millisecond, func() {
